@@ -624,7 +624,8 @@ def attr_serde(case, fail):
 
 
 def serde_tlc(ctx, name, strata, maxlen):
-    cfg = cfg_text(constants={"Strata": set(strata), "MaxLen": maxlen}, invariants=SERDE_INVS)
+    extra = {1040, 40001, 7009, 64002, 5005} if ctx.quick else {1040, 40001, 7009, 64002, 5005, 1300, 300001, 33033, 17002, 2017, 128003}
+    cfg = cfg_text(constants={"Strata": set(strata), "MaxLen": maxlen, "RtMax": 3 if ctx.quick else 5, "RtExtra": extra}, invariants=SERDE_INVS)
     return ctx.tlc_run(name, "SerdeMC", cfg, workers=8)
 
 
